@@ -260,6 +260,7 @@ namespace { struct NullBuf : std::streambuf { int overflow(int c) override { ret
 
 Interp::Interp(const std::string &scratchDir) : dir(scratchDir) { slots.resize(4); obj.reset(new ezc3d::c3d()); trace = getenv("VERIF_TRACE") != nullptr; }
 Interp::Interp(const RunCtx &ctx, const std::string &prop) : Interp(ctx.scratch) {
+    propId = prop;
     for (auto &id : ctx.openFindings) {
         auto it = ctx.notExcludedFor.find(id);
         if (!prop.empty() && it != ctx.notExcludedFor.end() && it->second.count(prop)) continue;
@@ -313,8 +314,12 @@ void Interp::run(const Case &c) {
 Outcome Interp::exec(const Op &op) {
     Outcome out;
     const std::string &k = op.code;
+    // KF-EMPTYANALOG: on an object whose ANALOG group is empty every parameter / column / rate call changes the object and then throws from
+    // the header update (the finding, C10), and a matching frame is refused (a violation for the properties that demand acceptance, but a
+    // CLEAN refusal: nothing is stored). For C10 the frame calls therefore stay in the history: they must leave the object unchanged
+    const bool c10Narrow = propId == "C10";
     if (analogGroupEmpty && openFindings.count("KF-EMPTYANALOG") &&
-        (k == "declp" || k == "decla" || k == "fsub" || k == "pcol" || k == "acol" || k == "param" || k == "prate" || k == "arate" || k == "gapfill" || k == "padp" || k == "limit")) {
+        (k == "declp" || k == "decla" || (k == "fsub" && !c10Narrow) || k == "pcol" || k == "acol" || k == "param" || k == "prate" || k == "arate" || k == "gapfill" || k == "padp" || k == "limit")) {
         excluded["KF-EMPTYANALOG"]++; out.skipped = true; out.note = "excluded: known finding KF-EMPTYANALOG (editing an object whose ANALOG group is empty)"; return out;
     }
     try {
@@ -352,6 +357,9 @@ Outcome Interp::exec(const Op &op) {
                 if (s.arate != 0.f && nr != 0.f) {
                     float q = s.arate / nr;
                     if (!(q >= 1.f) || q != static_cast<float>(static_cast<long long>(q))) { out.skipped = true; out.note = "rates would be inconsistent: not called"; return out; }
+                    // (ANALOG:RATE is set as 1..20 x POINT:RATE; lowering POINT:RATE afterwards could ask for thousands of sub-frames per frame,
+                    //  which costs the harness minutes per case and, times the channels, leaves the header's capacity: C17 owns that limit)
+                    if (q > 256.f) { out.skipped = true; out.note = "more than 256 sub-frames per frame: not explored by histories (C17 owns the sub-frame limit)"; return out; }
                 }
             }
             out.mutating = true;
@@ -744,7 +752,7 @@ Outcome Interp::exec(const Op &op) {
             }
             long long nb = op.arg(0) < 0 ? -op.arg(0) : op.arg(0);
             size_t ncols = static_cast<size_t>(1 + (op.arg(1) < 0 ? -op.arg(1) : op.arg(1)) % 3);
-            long long dev = (op.arg(2) < 0 ? -op.arg(2) : op.arg(2)) % 12;     // 11: (acol) a later sub-frame of the last frame is one column short
+            long long dev = (op.arg(2) < 0 ? -op.arg(2) : op.arg(2)) % 13;     // 11: (acol) a later sub-frame of the last frame is one column short; 12: (pcol) a later frame carries a spare point behind the new ones
             Rng r(static_cast<uint64_t>(op.arg(3)));
             std::vector<std::string> names;
             for (size_t j = 0; j < ncols; ++j) names.push_back(isP ? pointNameOf(500 + nb + static_cast<long long>(j)) : channelNameOf(500 + nb + static_cast<long long>(j)));
@@ -781,8 +789,13 @@ Outcome Interp::exec(const Op &op) {
                             if (dev == 11 && nF >= 2 && f == nF - 1 && j == 0) { pt.name(names[j] + "_other"); out.note = "altname"; }   // a later frame spells the new name differently
                             fillPoint(pt, r); pts.point(pt);
                         }
+                        const bool spare = dev == 12 && nF >= 2 && f == (nF == 2 ? 1 : nF / 2) && cols >= 1 && out.note == "match";
+                        if (spare) { ezc3d::DataNS::Points3dNS::Point pt; pt.name("spare_point_of_the_caller"); fillPoint(pt, r); pts.point(pt); out.note = "spare"; }
                         fr.add(pts);
                         for (size_t j = 0; j < fr.points().nbPoints(); ++j) fr.points_nonConst().point_nonConst(j).residual(bitsToFloat(genFloatBits(r)));
+                        if (spare) {     // intended content of this frame's new columns: the columns frame 0 declares, not the spare one
+                            SFrame m = takeFrame(fr); m.pts.pop_back(); builtModel.push_back(m); col.push_back(fr); continue;
+                        }
                     } else {
                         ezc3d::DataNS::AnalogsNS::Analogs an;
                         for (size_t sfi = 0; sfi < nSub; ++sfi) {
